@@ -15,6 +15,7 @@ type Gen struct {
 	shard   int
 	nshards int
 	dm      int // DefaultRoundingMode as last set by this session
+	batch   int // concurrent batches emitted so far (C20)
 }
 
 func (g *Gen) thorough() bool { return g.tier == "thorough" }
